@@ -1,4 +1,5 @@
 import Thanos.Model.ResultsCache
+import Thanos.Lemmas.ResultsCache
 import Thanos.Generated.Facts
 /-
   C42 — The results cache never changes query results.
@@ -56,6 +57,22 @@ example : history ⟨true, true⟩ dLate true 86400000 []
     [some (evalD dLate 7800000 8400000 600000), some (evalD dLate 7200000 8400000 600000)] := by decide
 example : history ⟨true, true⟩ dLin true 86400000 [] [⟨0, 90000, 30000⟩, ⟨0, 240000, 60000⟩] =
     [some (evalD dLin 0 90000 30000), some (evalD dLin 0 240000 60000)] := by decide
+
+
+/-! ### MergeResponse after the repair: exact for coherent responses in any order -/
+
+/-- **matrixMerge_spec / MergeResponse ordering.**  Responses that are restrictions of one and
+    the same data to their time ranges (`Coherent`: distinct series, ascending non-empty streams,
+    samples inside the range, and a sample lying in another response's range is in that
+    response) — whatever their number, input order or overlaps: `MergeResponse` with the repaired
+    `minTime()` returns a canonical matrix in which every series has exactly the samples of all
+    responses, each once, ascending.  (With the first-series `minTime()` this is false:
+    `C42_minFirst_false`.) -/
+theorem C42_mergeResponse (ps : List Piece) (h : Coherent ps) :
+    Canon (mergeResponse true (ps.map (·.m))) ∧
+    ∀ id, Asc (look (mergeResponse true (ps.map (·.m))) id) ∧
+      ∀ x, x ∈ look (mergeResponse true (ps.map (·.m))) id ↔ ∃ p ∈ ps, x ∈ look p.m id :=
+  mergeResponse_spec ps h
 
 /-! ### regenerated obligations -/
 
